@@ -74,6 +74,9 @@ def _run_body(c, fn, case, ctx, I, suffix, tag=""):
     entry.pc = list(st.pc)
     entry.heap = dict(st.heap)
     outs = I.exec_block(strip_docstring(fn.body), st)
+    cuts = c.options.get("cuts")
+    if cuts and len(ctx.__dict__.get("cuts_used", ())) != len(cuts):
+        raise ToolLimit("contract cut point(s) of %s not found in the source (statement text changed)" % c.name)
     return entry, outs
 
 
@@ -140,6 +143,9 @@ def _generate_case(c, fn, case, ci, registry, rep):
     rep.dead_paths += ctx.dead_paths
     rep.dropped += ctx.dropped
     rep.notes += ctx.tool_notes
+    if getattr(ctx, "tier_b_skipped", 0):
+        rep.notes.append("%s: %d obligations of kinds %s are NOT claimed by this contract (tier B: bounded stand-in only)"
+                         % (c.name, ctx.tier_b_skipped, sorted(c.options.get("tier_b_kinds"))))
 
 
 def _merged_run(c, fn, case, ctx, I, suffix, tag):
